@@ -246,6 +246,15 @@ theorem insertions_change_nothing_old {s s'' : Snap} (hok : Snap.AddOK s) (hi : 
 /-- non-vacuity: the empty e-graph satisfies `AddOK` -/
 example : Snap.AddOK { uf := [], classes := [] } := ⟨fun e he => by simp at he, fun c hc => by simp at hc⟩
 
+/-- an insertion's change of the union-find is one `alloc` write that passes the guard of the write model, so everything proved of
+valid writes (`handle_survives_write`, `handles_survive_all_writes`, `find_total_after_writes`) covers insertions too: the model of
+`add` (`Model/Add.lean`) and the model of the writes (`Model/UfWrite.lean`) describe the same table -/
+theorem insertion_is_valid_write {s s' : Snap} {n syn : Node} {f2o : SlotMap} {data : String} {a : AppId}
+    (h : Snap.addNew s n f2o syn data = some (s', a)) :
+    Snap.validWrite s.uf s.uf.length { id := s.uf.length, m := SlotMap.identity (SlotMap.keys f2o) } = true ∧
+    s'.uf = Snap.ufSet s.uf s.uf.length { id := s.uf.length, m := SlotMap.identity (SlotMap.keys f2o) } :=
+  Snap.addNew_is_valid_write h
+
 /-! ### the group half of the contract of `move_to` / `shrink_slots`, checked on every logged merge and shrink (protocol `grpw`) -/
 
 /-- a merge entry accepted by `Grpw.mergeOK` supplies the group hypotheses of `equalities_survive_merge` (`hvt'`, `hgens`) and of
